@@ -42,7 +42,7 @@ def gen_case(r, hashseed, tier):
     v = {}
     for p in program['preds']:
       if p['kind'] == 'edb':
-        v[p['name']] = gen.gen_edb(r, p['name'], arity=p['arity'])['rows']
+        v[p['name']] = gen.gen_edb(r, p['name'], arity=p['arity'], types=p.get('types'))['rows']
     versions.append(v)
   ops = []
   n_ops = r.randint(2, 10 if tier == 'thorough' else 8)
